@@ -16,7 +16,6 @@ require (
 	github.com/arr-ai/proto v0.0.0-20180422074755-2ffbedebee50
 	github.com/arr-ai/wbnf v0.35.3
 	github.com/chzyer/readline v1.5.1
-	github.com/cornelk/hashmap v1.0.1
 	github.com/getkin/kin-openapi v0.124.0
 	github.com/ghodss/yaml v1.0.0
 	github.com/go-git/go-git/v5 v5.12.1-0.20240729070005-9debed20a895
